@@ -253,8 +253,9 @@ ClusterHasUnknown(c, sf) ==
   ELSE IF r[2].k = "err" THEN TRUE
   ELSE IF ~ContainsShort(c, r[2].v) THEN TRUE ELSE ClusterHasUnknown(c, r[1])
 
-RECURSIVE WalkShort(_, _, _, _)
-WalkShort(c, st, sf, ret) ==
+\* n: flags of this cluster read so far, the skipped ones included (`consumed` in parse_short_arg)
+RECURSIVE WalkShort(_, _, _, _, _)
+WalkShort(c, st, sf, ret, n) ==
   LET nx == ShNextFlag(sf) IN
   IF nx[2].k = "none" THEN R(ret, st, "", "")
   ELSE IF nx[2].k = "err" THEN R("nomatch", st, "", "")
@@ -264,14 +265,14 @@ WalkShort(c, st, sf, ret) ==
   THEN LET a == c.args[ai] st1 == [st EXCEPT !.valid = TRUE] IN
        IF ~TakesValue(a)
        THEN LET r == React(c, st1, a, "short", SrcCli, <<>>, -1) IN
-            IF IsBad(r) THEN r ELSE WalkShort(c, r.st, sf1, "done")
+            IF IsBad(r) THEN r ELSE WalkShort(c, r.st, sf1, "done", n + 1)
        ELSE LET rest == ShNextValueOs(sf1)[2]
                 val0 == IF rest.k = "ok" THEN rest.v ELSE <<>>
                 hasVal0 == val0 # <<>>
                 hasEq == hasVal0 /\ val0[1] = EQ
                 val == IF hasEq THEN Tail(val0) ELSE val0
                 r == ParseOptValue(c, st1, "short", hasVal0, val, a, hasEq)
-            IN IF r.t = "notconsumed" THEN WalkShort(c, r.st, sf1, "done") ELSE r
+            IN IF r.t = "notconsumed" THEN WalkShort(c, r.st, sf1, "done", n + 1) ELSE r
   ELSE LET si == FindShortSub(c, ch) IN
        IF si # 0
        THEN LET rp == ResolvePending(c, st) IN
@@ -279,7 +280,9 @@ WalkShort(c, st, sf, ret) ==
             ELSE LET cur == rp.st.cur + 1
                      at0 == IF rp.st.fsat = -1 THEN cur ELSE rp.st.fsat
                      doneShort == ShIsEmpty(sf1)
-                 IN R("flagsub", [rp.st EXCEPT !.cur = cur, !.fsat = IF doneShort THEN -1 ELSE at0], "", SubView(c)[si].name)
+                 \* the subcommand revisits the cluster and skips what was read, wherever in the cluster the flag subcommand stood
+                 IN R("flagsub", [rp.st EXCEPT !.cur = cur, !.fsat = IF doneShort THEN -1 ELSE at0,
+                                               !.fsskip = IF doneShort THEN @ ELSE n + 1], "", SubView(c)[si].name)
        ELSE R("nomatch", st, "", "")
 
 ParseShortArg(c, st, rem) ==
@@ -293,7 +296,7 @@ ParseShortArg(c, st, rem) ==
           \* debug_assert_eq!(res, Ok(())): tracking of flag_subcmd_skip
           IF adv[2].k # "ok" \/ st.fsskip > 3 THEN R("panic", st, "parser.rs:919 debug_assert advance_by(flag_subcmd_skip)", "")
           \* a cluster parsed from its start forgets a flag-subcommand position remembered earlier
-          ELSE WalkShort(c, [st EXCEPT !.fsskip = 0, !.fsat = IF st.fsskip = 0 THEN -1 ELSE @], adv[1], "noarg")
+          ELSE WalkShort(c, [st EXCEPT !.fsskip = 0, !.fsat = IF st.fsskip = 0 THEN -1 ELSE @], adv[1], "noarg", st.fsskip)
 
 \* ---- Parser::match_arg_error ----------------------------------------------------------
 MatchArgErrorKind(c, st, tok) ==
@@ -553,7 +556,7 @@ RunLevel(c, argv, start, cur, fsat, fsskip) ==
           [] OTHER ->   \* "sub" | "subkeep"
                LET st == lr.st
                    keep == lr.t = "subkeep" /\ st.fsat # -1
-                   skip == IF keep THEN st.cur - st.fsat + 1 ELSE st.fsskip
+                   skip == st.fsskip        \* recorded when the flag subcommand was found
                    si == FindSubcommand(c, lr.x.x)
                IN IF Set(c, "args_conflicts_with_subcommands") /\ st.valid
                   THEN \* subcommand_conflict: ids that are not arguments (group entries) are skipped (filter_map)
